@@ -1,18 +1,8 @@
-mod alloc;
-mod common;
-mod observe;
 mod props;
-mod worker;
-
-#[global_allocator]
-static GLOBAL: alloc::Counting = alloc::Counting;
+pub use mc_walk::{common, observe, root, worker};
 
 use mc_core::explore::{Ctx, Tier};
-use std::path::PathBuf;
 
-pub fn root() -> PathBuf {
-    PathBuf::from(std::env::var("VERIF_ROOT").unwrap_or_else(|_| "/verif".into()))
-}
 
 fn usage() -> ! {
     eprintln!("usage: mc check <C01..C19> <quick|thorough> | mc replay <replay.json> | mc selftest");
@@ -50,7 +40,6 @@ fn main() {
             let code = props::run(&prop, tier, Some(only));
             std::process::exit(code);
         }
-        "worker" => worker::child_main(),
         "selftest" => {
             let ctx = Ctx::new("SELFTEST", Tier::Quick, "other", &root());
             std::process::exit(props::selftest::run(&ctx));
